@@ -22,8 +22,8 @@ ASSUMPTIONS = ["reference model transcribes W3C SCXML 1.0 Appendix D correctly (
 
 def budget(tier):
     if tier == "thorough":
-        return {"examples": 12000, "exh_states": 4, "min_nontrivial": 2000}
-    return {"examples": 350, "exh_states": 3, "min_nontrivial": 300}
+        return {"examples": 12000, "exh_states": 6, "min_nontrivial": 2000}
+    return {"examples": 350, "exh_states": 5, "min_nontrivial": 300}
 
 
 QUIRKS = None
@@ -34,7 +34,7 @@ def expected_traces(ctx, ch, events):
     return m, exp
 
 
-def check_case(ctx, ch, events, engine="large", dm=None):
+def check_case(ctx, ch, events, engine="large", dm=None, extra_labels=()):
     m, exp = run_model(ch, events)
     xml = ch.to_xml(dm)
     vars_ = ",".join(v for v, _ in ch.variables)
@@ -43,7 +43,7 @@ def check_case(ctx, ch, events, engine="large", dm=None):
         raise Failure("exception", {"exception": r["exception"], "signature": r["exception"][:80]})
     obs = trace.normalise(r["trace"])
     i = compare_prefix(exp, obs)
-    labels = set(m.labels)
+    labels = set(m.labels) | set(extra_labels)
     if exp and exp[-1] == ('budget',):
         labels.add('budget-prefix-only')
     if i < 0 and 'budget-prefix-only' not in labels and vars_:
@@ -74,9 +74,22 @@ def shard_main(ctx):
     if ctx.shard == 0:
         ctx.replay_witnesses(sys.modules[__name__])
         ctx.replay_corpus(sys.modules[__name__])
+    # bounded exhaustive core: all small charts (see gen.enum_small_charts), event history a,a
+    try:
+        for ch in gen.enum_small_charts(p["exh_states"], 2, ctx.shard, ctx.nshards, only_parallel_above=p["exh_states"] - 2):
+            check_case(ctx, ch, ['a', 'a'], dm='null', extra_labels=['exhaustive-core'])
+        ctx.exhaustive = True
+    except Failure as f:
+        ctx.failures.append({"kind": f.kind, "detail": f.detail, "case": case_repr(ch, ['a', 'a'])})
+        ctx.exhaustive = False
+        return
     o = gen.GenOpts()
     ctx.run_hypothesis([gen.charts(o, 'lua'), gen.event_histories()],
                        lambda ch, evs: check_case(ctx, ch, evs), p["examples"], case_repr)
+    # history-focused profile: long histories over two event names on charts dense with history states
+    ctx.run_hypothesis([gen.charts(gen.history_profile(), 'null'), gen.event_histories(12, ['a', 'b'])],
+                       lambda ch, evs: check_case(ctx, ch, evs, dm='null', extra_labels=['history-profile']), p["examples"], case_repr,
+                       name="history")
 
 
 def replay(ctx, case):
@@ -86,6 +99,12 @@ def replay(ctx, case):
     except Failure as f:
         return [{"kind": f.kind, "detail": f.detail}]
     return []
+
+
+def extra_coverage(results):
+    return {"exhaustive_core": "all charts with <= N proper states (trees above N-2 states only when they contain a parallel state), "
+            "all kind assignments, all sets of <= 2 transitions over {targetless, any single target, internal variant}, events a,a",
+            "exhaustive_refers_to": "the exhaustive core only; the Hypothesis stream is sampled"}
 
 
 if __name__ == "__main__":
